@@ -4,6 +4,7 @@ import itertools
 from urllib.parse import urlsplit as py_urlsplit, urlunsplit as py_urlunsplit
 
 import lib
+import urlrt
 
 ID = "C12"
 LEAN_MODULE = "UralModel.Props.C12"
@@ -22,12 +23,23 @@ THEOREMS = [
     "Ural.Props.C12.expected_components",
     "Ural.Props.C12.splitRejoins_of_c08",
     "Ural.Props.C12.relru_fixed",
+    # the parser inside the model (URL strings)
+    "Ural.Props.C12.serialization_string",
+    "Ural.Props.C12.roundtrip_string_partial",
+    "Ural.Props.C12.accessors_string_partial",
+    "Ural.Props.C12.fullRoundtripString_false",
+    "Ural.Props.C12.splitLaw_of_class",
+    "Ural.Props.C12.relru_fixed_class",
+    "Ural.Props.C12.accessors_roundtrip",
+    "Ural.Props.C12.stems_wellformed_of_split",
 ]
 TABLE_OBLIGATIONS = [
     "Ural.Props.C12.port_splitter_pattern",
     "Ural.Props.C12.serialized_lru_splitter_pattern",
     "Ural.Props.C12.port_splitter_probes",
     "Ural.Props.C12.serialized_lru_splitter_probes",
+    "Ural.Props.C12.protocol_re_pattern",
+    "Ural.Props.C12.urllib_uses_netloc",
 ]
 RULE = (
     "A case is a URL string with the suffix_aware modes to run it in (both, for the corpus and the grammar). The stream is: the regression corpus (IPv6 with port, "
@@ -45,6 +57,15 @@ RULE = (
     "ural.lru.conversion.urlunsplit), final URL string (from stems and from the string), CPython "
     ".hostname, and the same verdicts of the specification predicates (wf, no-bar, "
     "grammar host/port, expected round-trip tuple) as an independent Python implementation. "
+    "String-level tie (the parser inside the model): on EVERY URL of the stream whose ensure_protocol(url) is "
+    "inside the stated domain of the parser model (urlrt.outside_model, decided from CPython's answer; the "
+    "withheld ones are counted) the model's own urlsplit + .username/.password/.hostname/.port run on "
+    "ensure_protocol(url) and on every lru_to_url(url_to_lru(url)) result and must agree with CPython "
+    "(op parse_url), and the composed pipeline of Model/LruUrl.lean (op lru_url: urlsplit(ensure_protocol(u)), "
+    "lru_stems(u), url_to_lru(u), lru_to_url of it, urlsplit of that, url_to_lru of that, ValueError included, "
+    "and membership of the class `inClass` of the string-level theorems) must agree with the real functions "
+    "and with an independent Python reading of the class. The distribution counts the evaluations inside the "
+    "proved class (string-class:inside) and, outside, the clause that fails. "
     "Non-trivial = the URL has no '|', urlsplit accepts it and it is inside the grammar (wf); "
     "distinct = distinct (URL, modes)."
 )
@@ -56,19 +77,28 @@ TRUSTED = [
     "Lean 4 kernel; axioms of every listed theorem audited to be within {propext, Classical.choice, Quot.sound}",
     "hand-written Lean model UralModel/Model/Lru.lean of ural/lru/{stems,serialization,conversion}.py (+ is_special_host), tied to the code by differential execution on every run (stems, LRU string, unserialized list, the 5-tuple handed to urlunsplit, the final URL)",
     "the two regexes are modelled by hand-written splitters; their pattern strings and the verdicts of the compiled regexes on a probe list are regenerated into Gen/LruPatterns.lean and re-checked by `decide` (table obligations), and the splitters are compared with re.split on every generated string",
-    "CPython: urlsplit is outside the model (the model starts from the 5 components it returns); the theorems end at the 5-tuple handed to urlunsplit. The last step 'urlsplit(urlunsplit(t)) has the components of t' is a CPython fact, validated on every case by the oracle (real urlsplit of the real lru_to_url output) but not proved; urlunsplit and SplitResult.hostname are modelled by hand (Py/Split.lean) and compared with CPython on every case",
+    "CPython's urlsplit / SplitResult accessors / urlunsplit are hand-written Lean models (Py/UrlSplit.lean, Py/UrlAccessors.lean, Py/Split.lean) — compared with CPython 3.12 on every URL of the stream and on every round-trip result (ops parse_url, lru_url, urlunsplit), NOT proved equal to it; stated restrictions of the parser model: str.lower is ASCII lower-casing, _checknetloc (NFKC) is not modelled, _check_bracketed_host is approximated (no IPv4 tail inside an IPv6 literal: such URLs are rejected by the model, hence outside the string-level class, and withheld from the string-level tie); ensure_protocol is the model UrlParts.ensureProtocol (PROTOCOL_RE hand-matched; table obligations protocol_re_pattern, urllib_uses_netloc)",
     "ASCII-exact model: str.lower and \\d are modelled on ASCII only; generators use non-ASCII characters on which lower() is the identity and no non-ASCII digits",
     "split_suffix (public-suffix trie, property C08) is an abstract parameter of the model; the driver uses the answer of the real split_suffix shipped with each case",
 ]
 ASSUMPTIONS = [
-    "C08 clause used as hypothesis (SplitRejoins): when split_suffix(url) is not None its two parts re-join to the lower-cased urlsplit(url).hostname; checked on every in-grammar case of this run (it fails exactly for hosts with a trailing dot, which are outside the suffix-aware reading)",
+    "C08 clause used as hypothesis (SplitRejoins / SplitRejoinsUrl): when split_suffix(url) is not None its two parts re-join to the lower-cased urlsplit(url).hostname; checked on every in-grammar case of this run (it fails exactly for hosts with a trailing dot, which are outside the suffix-aware reading). The string-level class additionally reads off the real split_suffix answer 'None on a bracketed literal' (true for pure IPv6 by is_special_host — proved —, for embedded IPv4 because no public suffix is a number; false for zone ids / IPvFuture texts ending with a public suffix: KF-C12-1)",
     "reading: the suffix-aware clause is demanded for hosts without empty label (DESIGN D35) and without '%'; userinfo/host without raw '@', port without ':' (the grammar); empty and absent user/password identified",
 ]
 UNPROVED = (
-    "urlsplit(renderParts t) = t (CPython, validated by the oracle on every case, not proved); "
-    "suffix-aware round trip for bracketed hosts that are not pure hex/colon (embedded IPv4, zone id) "
-    "relies on the hypothesis SplitRejoins' being discharged by is_special_host only for pure IPv6 "
-    "literals: those shapes are covered by correspondence + oracle only"
+    "The parser hypothesis is discharged: roundtrip_string_partial / accessors_string_partial / serialization_string are "
+    "about URL STRINGS with the modelled parser in the loop (urlsplit(urlunsplit t) = t is now the theorem "
+    "UrlRoundTrip.urlsplit_urlunsplit20 applied to the components lru_to_url prints). What remains: "
+    "(1) the Lean parser is compared with CPython on every case, not proved equal to it; "
+    "(2) the round trip is proved on the class inClass = {u : the parser accepts ensure_protocol(u); no '|'; netloc in the "
+    "grammar wfNetloc; a host; no raw '[' ']' in the userinfo; suffix-aware: no '%' in a plain host, split_suffix is None "
+    "on a bracketed literal}. Outside it: no host / netloc outside the grammar / bracketed literal with a suffix really fail "
+    "(fullRoundtripString_false, examples, KF-C12-1); a malformed authority raises ValueError; for a raw bracket in the "
+    "userinfo (needs the bracket check of urlsplit to survive the removal of an empty password) and '%' in a plain "
+    "suffix-aware host (needs split_suffix(h) = split_suffix(lower h), not part of C08's clause) no failing input is "
+    "known: those two regions are covered by correspondence + oracle only; "
+    "(3) embedded-IPv4 literals are covered at component level (splitLaw_of_class, relru_fixed_class, roundtrip_parts) "
+    "but not at string level: the parser model rejects them (stated restriction of Py/UrlSplit.lean)"
 )
 
 # --------------------------------------------------------------------------------------
@@ -95,6 +125,14 @@ CORPUS = [
     # D34 (fixed by 915ddc4): bracketed IPv6 hosts
     "http://[2001:db8::1]:8080/x", "http://[::1]/", "http://u:p@[::1]:80/", "http://[2001:db8::1]/x",
     "http://[::ffff:1.2.3.4]:8/a", "http://[fe80::1%25eth0]:22/", "http://[FE80::A]/", "http://[::1]:/",
+    # KF-C12-1: bracketed literal whose zone id / IPvFuture text ends with a public suffix (suffix-aware mode
+    # splits it into domain labels); and the same shapes without a suffix (fine)
+    "http://[::1%a.co.uk]/x", "http://[v1.a.com]/", "http://[FE80::1%Eth0.com]:80/", "http://[fe80::1%eth0]/",
+    "http://[v1.x]/p", "http://u:p@[fe80::1%25eth0]:22/a?b#c", "http://[v1.fe80::a+en1]/",
+    # string-level class boundary: bracket in the userinfo, no host, tab / CR / LF inside, leading blanks
+    "http://u[@a.com/", "http://[u]@a.com/", "http://[::1]@a.com/", "http://:[::1]@a.com/p", "http:///x", "http://@/x",
+    "http://a.com/a\tb", "ht\ttp://a.com", "  http://a.com/x", "\x00http://a.com", "http://a\n.com/", "HTTP://A.com:80",
+    "aaaaaaaaaaaaaaaaaaaaaaaaaaaaaaaaaaaaaaaaaaaaaaaaaaaaaaaaaaaaaaaaa://a.com/x", "a1://b.c/d", "a+b://c.d/e",
     # D9: password without user
     "http://:p@a.com/", "http://u:@a.com", "http://@a.com", "http://:@a.com/x",
     # ':' and '@' in path / query / fragment
@@ -370,14 +408,116 @@ def parts_json(A, split):
     return {"scheme": A[0], "netloc": A[1], "path": A[2], "query": A[3], "fragment": A[4], "split": split}
 
 
+def full_url(url):
+    lib.ural()
+    from ural.ensure_protocol import ensure_protocol
+
+    return ensure_protocol(url)
+
+
+def class_reason(A, sa, split):
+    """None when A = urlsplit(ensure_protocol(u)) puts u inside the class of the string-level
+    theorems (Model/LruUrl.lean: inClass), else the first clause that fails.  Written on the real
+    parser's answer, independently of the Lean text."""
+    if A is None:
+        return "urlsplit-ValueError"
+    t = [A[0], A[1], A[2], A[3], A[4]]
+    if "|" in "".join(t):
+        return "bar"
+    n = t[1]
+    if not wf_netloc(n):
+        return "netloc-outside-grammar"
+    host, _port = spec_hostport(hostport_of(n))
+    if host == "":
+        return "no-host"
+    i = n.find("@")
+    auth = n[:i] if i >= 0 else ""
+    if "[" in auth or "]" in auth:
+        return "bracket-in-userinfo"
+    if sa:
+        if host.startswith("["):
+            if split is not None:
+                return "bracketed-literal-with-suffix(KF-C12-1)"
+        elif "%" in host:
+            return "percent-in-host"
+    return None
+
+
+def _string_level(url, sa):
+    """what the real code answers along the string-level pipeline (op lru_url)"""
+    lib.ural()
+    from ural.lru import lru_stems, url_to_lru, lru_to_url
+
+    err = {"error": "ValueError"}
+    pr = cparse(url)
+    if pr is None:
+        return {"parts": err, "stems": err, "lru": err, "in_class": False, "back": err, "reparse": err, "relru": err}
+    A, split = pr
+    stems = list(lru_stems(url, suffix_aware=sa))
+    lru = url_to_lru(url, suffix_aware=sa)
+    back = _guard(lambda: lru_to_url(lru))
+    out = {
+        "parts": [A[0], A[1], A[2], A[3], A[4]],
+        "stems": stems,
+        "lru": lru,
+        "in_class": class_reason(A, sa, split) is None,
+        "back": back,
+    }
+    if isinstance(back, str):
+        out["reparse"] = _guard(lambda: list(py_urlsplit(back)))
+        out["relru"] = _guard(lambda: url_to_lru(back, suffix_aware=sa))
+    else:
+        out["reparse"] = err
+        out["relru"] = err
+    return out
+
+
+def _back_of(url, sa):
+    lib.ural()
+    from ural.lru import url_to_lru, lru_to_url
+
+    try:
+        return lru_to_url(url_to_lru(url, suffix_aware=sa))
+    except Exception:  # noqa
+        return None
+
+
+def string_plan(case):
+    """(op, thunk) pairs of the string-level tie: the model's own parser on ensure_protocol(u)
+    and on every round-trip result (op parse_url of Driver/UrlRt.lean: urlsplit + the four
+    accessors, against CPython), and the composed pipeline lru_url.  Strings outside the stated
+    domain of the parser model (urlrt.outside_model, decided from the real parser) are withheld."""
+    url = case["url"]
+    full = full_url(url)
+    if urlrt.outside_model(full) is not None:
+        return []
+    out = [({"f": "parse_url", "url": full}, lambda: urlrt.parse_real(full))]
+    pr = cparse(url)
+    split = pr[1] if pr is not None else None
+    for sa in case["sa"]:
+        back = _back_of(url, sa) if pr is not None else None
+        skip_back = back is not None and urlrt.outside_model(back) is not None
+        split_back = None
+        if back is not None:
+            pb = cparse(back)
+            split_back = pb[1] if pb is not None else None
+        op = {"f": "lru_url", "url": url, "sa": sa, "split": split, "split_back": split_back}
+        if skip_back:
+            op["skip_back"] = True
+        out.append((op, (lambda sa=sa: _string_level(url, sa))))
+        if back is not None and not skip_back:
+            out.append(({"f": "parse_url", "url": back}, (lambda back=back: urlrt.parse_real(back))))
+    return out
+
+
 def ops(case):
     k = case["k"]
     if k == "url":
+        out = [o for o, _ in string_plan(case)]
         pr = cparse(case["url"])
         if pr is None:
-            return []
+            return out
         A, split = pr
-        out = []
         for sa in case["sa"]:
             o = parts_json(A, split)
             o.update({"f": "lru", "sa": sa})
@@ -444,11 +584,12 @@ def impl(case):
 
     k = case["k"]
     if k == "url":
+        out = [f() for _, f in string_plan(case)]
         pr = cparse(case["url"])
         if pr is None:
-            return []
+            return out
         A, split = pr
-        return [_impl_url(C, case["url"], sa, A, split) for sa in case["sa"]]
+        return out + [_impl_url(C, case["url"], sa, A, split) for sa in case["sa"]]
     if k == "stems":
         st = case["stems"]
         lru = _guard(lambda: serialize_lru(st))
@@ -472,6 +613,10 @@ def canon(op, out):
     if op["f"] == "lru" and not out.get("wf"):
         # the grammar host/port and the expected tuple are only defined inside the grammar
         for k in ("spec_host", "spec_port", "expected", "wf_sa"):
+            out.pop(k, None)
+    if op["f"] == "lru_url" and op.get("skip_back"):
+        # the round-trip result is outside the stated domain of the parser model
+        for k in ("reparse", "relru"):
             out.pop(k, None)
     if op["f"] == "lru_stems" and not op["stems"]:
         # lru_to_url([]) : isinstance check takes the list branch; nothing to compare but keep serialisation
@@ -515,7 +660,7 @@ def in_reading(A, sa):
         # a URL without host is outside the grammar (and CPython's urlunsplit drops an empty
         # netloc in front of a path starting with '//')
         return False
-    if sa and (has_empty_label(host) or "%" in host) and host != "":
+    if sa and (has_empty_label(host) or ("%" in host and not host.startswith("["))) and host != "":
         return False
     return True
 
@@ -589,6 +734,21 @@ def oracle_url(url, sa):
     return None
 
 
+def kf_bracketed_literal_suffix(case, failure):
+    """KF-C12-1: suffix_aware=True, the host of u is a bracketed IP literal and split_suffix finds a
+    public suffix at the end of its text (zone id `[::1%a.co.uk]`, IPvFuture `[v1.a.com]`): stems.py
+    then emits the literal as domain labels and lru_to_url gives a URL without brackets"""
+    if case.get("k") != "url" or not failure.startswith("suffix_aware=True"):
+        return False
+    pr = cparse(case["url"])
+    if pr is None:
+        return False
+    A, split = pr
+    if split is None or not wf_netloc(A[1]):
+        return False
+    return spec_hostport(hostport_of(A[1]))[0].startswith("[")
+
+
 def nontrivial(case):
     if case["k"] != "url" or "|" in case["url"]:
         return None
@@ -609,6 +769,21 @@ def classify(case):
     for sa in case["sa"]:
         labs.append("sa=%d" % sa)
     pr = cparse(url)
+    om = urlrt.outside_model(full_url(url))
+    if om is not None:
+        labs.append("string-tie-withheld(outside-parser-model:%s)" % om)
+    for sa in case["sa"]:
+        r = class_reason(pr[0] if pr else None, sa, pr[1] if pr else None)
+        if r is None and om is None:
+            # the hypothesis of the suffix-aware theorems (C08's clause at u) holds?
+            if sa and pr[1] is not None and (pr[1][1] if pr[1][0] == "" else pr[1][0] + "." + pr[1][1]) != (pr[0].hostname or "").lower():
+                labs.append("string-class:inside-but-C08-clause-fails(trailing-dot)/sa=1")
+            else:
+                labs.append("string-class:inside/sa=%d" % sa)
+        elif r is None:
+            labs.append("string-class:components-inside-but-parser-model-rejects/sa=%d" % sa)
+        else:
+            labs.append("string-class:outside(%s)/sa=%d" % (r, sa))
     if pr is None:
         labs.append("urlsplit-ValueError")
         return labs
